@@ -1,1 +1,8 @@
-//! Hooks for property C27 (empty unless needed).
+//! Hooks for property C27: wrappers for the module-private net-report aggregation.
+//!
+//! The wrappers live in `net_report::verif_hooks` (the probe-report types are private to that
+//! module); this module only re-exports them.
+pub use crate::net_report::{
+    Probe, RelayLatencies, Report,
+    verif_hooks::{latencies_get, latencies_merge, latencies_update, report_update},
+};
